@@ -79,7 +79,8 @@ Definition exp_alloc (pre : ostate) (r : oreq) : list oevent :=
       | Some a =>
           match find_alloc (ap_requests a) (rq_key r) with
           | Some ex => if oa_allocated ex then []     (* update of something already allocated *)
-                       else [ENewAlloc (rq_key r) (rq_app r) (rq_node r) (oa_res ex) (oa_ph ex)]   (* the shim binds its own ask *)
+                       else [ENewAlloc (rq_key r) (rq_app r) (rq_node r) (oget (rq_res r)) (rq_ph r)]   (* the shim binds its own ask:
+                            the echo is built from the INCOMING message (size and placeholder flag as sent) *)
           | None => [ENewAlloc (rq_key r) (rq_app r) (rq_node r) (oget (rq_res r)) (rq_ph r)]    (* recovered allocation: echo *)
           end
       end
